@@ -160,6 +160,9 @@ class Model:
             if attr == "__members__":
                 return {k: ("enum", v.qualname, k) for k in v.members}
             return ("attr", ("class", v.qualname), attr)
+        if isinstance(v, tuple) and len(v) == 4 and v[0] == "ite" and all(isinstance(x, tuple) and x and x[0] in ("enum", "ite") for x in v[2:4]):
+            # an attribute of a conditional value whose branches are enum members: the conditional of the attributes
+            return T.ite(v[1], to_term(self.getattr(v[2], attr, node)), to_term(self.getattr(v[3], attr, node)))
         if isinstance(v, tuple) and v and v[0] == "enum":
             members = self._enum_members(v[1])
             if attr == "name":
